@@ -144,7 +144,12 @@ def inductive_loop(ip, frame, st, spec, seq, tag=None):
     iter_ref = seq[3].get('list_ref') if (is_for and seq is not None and len(seq) > 3) else None
     if iter_ref is not None and spec.heap != 'unchanged':
         # the list being iterated is not modified by the loop: assumed at the head, proved at the end of every iteration
-        ctx.assume(z3.And(ctx.heap.llen(iter_ref) == heap0.llen(iter_ref), ctx.heap.lels(iter_ref) == heap0.lels(iter_ref)))
+        i0_ = z3.Int('i!itl0')
+        ctx.assume(ctx.heap.llen(iter_ref) == heap0.llen(iter_ref))
+        ctx.assume(z3.ForAll([i0_], z3.Implies(z3.And(i0_ >= 0, i0_ < heap0.llen(iter_ref)),
+                                               ctx.heap.lget(iter_ref, i0_) == heap0.lget(iter_ref, i0_))))
+        # the element about to be visited (instance of the quantified fact, for the branch solver)
+        ctx.assume(z3.Implies(k < heap0.llen(iter_ref), ctx.heap.lget(iter_ref, k) == heap0.lget(iter_ref, k)))
     view = LoopView(ip, frame, frame.env, ctx.heap, env0, heap0, k)
     for label, f in _labelled(spec.invariant(view)):
         ctx.assume(f)
@@ -197,9 +202,12 @@ def inductive_loop(ip, frame, st, spec, seq, tag=None):
     if not spec.trusted_invariant:
         for label, f in _labelled(spec.invariant(view2)):
             ctx.oblige(f'{tag}.preserve.{label}', f, kind='loop-preserve')
-    if iter_ref is not None and spec.heap != 'unchanged':
+    if iter_ref is not None and spec.heap != 'unchanged' and not spec.trusted_invariant:
+        i_ = z3.Int('i!itl')
         ctx.oblige(f'{tag}.iterated-list-unmodified',
-                   z3.And(ctx.heap.llen(iter_ref) == heap_head.llen(iter_ref), ctx.heap.lels(iter_ref) == heap_head.lels(iter_ref)),
+                   z3.And(ctx.heap.llen(iter_ref) == heap_head.llen(iter_ref),
+                          z3.ForAll([i_], z3.Implies(z3.And(i_ >= 0, i_ < heap_head.llen(iter_ref)),
+                                                     ctx.heap.lget(iter_ref, i_) == heap_head.lget(iter_ref, i_)))),
                    kind='loop-frame')
     if spec.heap == 'unchanged':
         h, g = ctx.heap, heap_head
